@@ -559,3 +559,28 @@ def grams_from_whole_words(ctx, rule):
                              % S.show(recv, p)[:140],
                              {"witness": "English store: title 'walking shoes', query 'king' — the suffix cut off by the stemmer is never indexed"})
         ctx.floor(rule, "gram_iterator_uses", n, 1, p.where())
+
+
+def postings_unconditional(ctx, rule):
+    """R18.g: for every gram of an added record the record's position is appended to the posting list on every path (no
+    guard that can skip the push), and a new list starts with that position"""
+    facts = ctx.facts
+    idx_adt, _ = _index_bodies(ctx)
+    n = 0
+    for b in facts.fns():
+        if b.kind != "closure" or "TrigramIndex::add" not in b.id:
+            continue
+        cfg = ctx.cfg(b)
+        sy = ctx.sym(b)
+        pushes = [bi for bi, t in b.calls() if U.callee_is(t, "Vec::push")]
+        creates = [bi for bi, t in b.calls() if U.callee_is(t, "from_elem", "into_vec", "box_assume_init_into_vec_unsafe", "Vec::from")]
+        if pushes:
+            n += 1
+            key = "push-on-every-path:%s" % b.id.rsplit("::", 1)[-1]
+            if cfg.every_path_passes(0, pushes):
+                ctx.ok(rule, key, b.where(), "the record's position is pushed on every (non-panicking) path", nontrivial=True, kind="S")
+            else:
+                ctx.fail(rule, key, b.where(), "the push of the record's position into an existing posting list can be skipped by a guard",
+                         {"witness": "records with small ids added out of id order: a record is not listed under its own grams and "
+                                     "is never a candidate"}, kind="S")
+    ctx.floor(rule, "posting_push_closures", n, 1)
